@@ -35,7 +35,7 @@ REQUIRED = [
     "KV.C16.mergePhase", "KV.C16.fileEntry_refines", "KV.C16.codeSort_eq_spec", "KV.C16.codeSort_combine_eq_spec",
 ]
 
-BOOST = ["-Wl,--no-as-needed", "-lboost_thread", "-lboost_system"]
+BOOST = ["-Wl,--no-as-needed", "-lboost_thread", "-lboost_system", "-ldl"]
 
 
 # ---------------------------------------------------------------- python-side comparison keys (independent oracle)
@@ -334,6 +334,7 @@ def evaluate(ctx, c, line, hM, hO, dM):
         fields.append("seq")
     if c["detail"]:
         fields.append("passes")
+        fields.append("logs")      # complete content of every Offsets log written (block sorter + one per pass)
         if c["mode"] in ("output", "steal"):
             fields += ["mret", "lazy"]
         if c["mode"] == "retout":
